@@ -35,8 +35,27 @@ DPOOL = ["en", "de"]
 STRINGS = ["10.11.2012 14:00 CET", "10.11.2012 14:00"]
 
 
-def h_law(k, string_idx, with_unknown=False, first=None, second=None):
+def variant_pools():
+    """one pool per script-variant language L (code with a hyphen, e.g. zh-Hant): [L, X, B] with B the base language and
+    X a language ranked strictly between B and L in the library's priority order (when one exists) - a loader that ranks
+    a variant at its base language's position, or the reverse, orders such a pool differently"""
+    order, _ = C.languages_index()
+    out = []
+    for L in order:
+        if "-" not in L:
+            continue
+        B = L.split("-")[0]
+        if B not in order:
+            continue
+        lo, hi = sorted((order.index(B), order.index(L)))
+        mid = [x for x in order[lo + 1:hi] if "-" not in x]
+        out.append([L] + ([mid[len(mid) // 2]] if mid else []) + [B])
+    return out
+
+
+def h_law(k, string_idx, with_unknown=False, first=None, second=None, pool=None, max_default=2):
     s = STRINGS[string_idx]
+    POOL = pool or globals()["POOL"]
 
     def fn():
         n = C.ns()
@@ -55,7 +74,7 @@ def h_law(k, string_idx, with_unknown=False, first=None, second=None):
             idx.append(i)
         langs = [pool[i] for i in idx]
         given = core.branch(z3.Bool("use_given_order"))
-        nd = core.concretize(C.field("ndefault", 0, 2))
+        nd = core.concretize(C.field("ndefault", 0, max_default))
         didx = []
         for j in range(nd):
             i = core.concretize(C.field("dflt%d" % j, 0, len(DPOOL) - 1))
@@ -288,6 +307,11 @@ def tasks(tier, seed):
     for si, a, b in trip:
         add("law:k=3:%s:first=%s,%s" % ("tz" if si == 0 else "plain", POOL[a], POOL[b]), "h_law",
             {"k": 3, "string_idx": si, "first": a, "second": b}, 280)
+    # script variants: the priority order of a variant, its base language and a language ranked between them
+    vp = variant_pools()
+    for pool in vp:
+        kk = len(pool)
+        add("law:variant:%s" % "+".join(pool), "h_law", {"k": kk, "string_idx": 1, "pool": pool, "max_default": 0}, 120)
     add("law:unknown-code", "h_law", {"k": 2, "string_idx": 1, "with_unknown": True, "first": len(POOL)}, 120)
     for name in (sorted(REL) if not quick else [sorted(REL)[seed % len(REL)], "en"]):
         add("reparse:%s" % name, "h_reparse", {"name": name})
@@ -335,7 +359,7 @@ def native_check(spec):
                     langs, region, s_, dd.date_obj, dd.locale, valid, loc, dd2.date_obj, dd2.locale, exp)}
     if fn == "h_law":
         order, _ = C.languages_index()
-        pool = POOL + (["xx"] if a.get("with_unknown") else [])
+        pool = (a.get("pool") or POOL) + (["xx"] if a.get("with_unknown") else [])
         s = STRINGS[a["string_idx"]]
         langs = [pool[w["lang%d" % j]] if ("lang%d" % j) in w else pool[a["first"] if j == 0 else a["second"]]
                  for j in range(a["k"])]
